@@ -11,7 +11,12 @@ What is seen, and where:
   CacheAdd / CachePop / CacheTimeout / U_Cache     RequestCache.add / pop / _on_timeout / shutdown
   U_Tasks      TaskManager.shutdown_task_manager entered for T itself
   U_Listener   remove_listener called with T on the endpoint object T holds
-  SockOpen / SockClose   loop.create_datagram_endpoint (simulated) for protocols of T's exit sockets / transport.close
+  SockTry / SockOpen / SockFail / SockClose   loop.create_datagram_endpoint (simulated) called for a protocol of one of
+               T's exit sockets / it hands out the transport / it raises (the environment refuses the socket - the
+               scenario's open plan says which address family of which exit socket, and how long an attempt takes - or
+               the caller was cancelled while the attempt was in flight: no socket then) / transport.close.
+               a (SockTry, SockFail) resp. t (SockOpen) = the task of T in whose step - or in a step of a coroutine
+               started from it: ObsLoop's task factory keeps the parent of every task - the loop was asked
   RmSched      T.remove_exit_socket called (instance attribute placed from here) for a circuit whose exit socket has open
                transports: a removal of those sockets is scheduled
   BootInit / BootEnd     initialize() of a bootstrapper of T called (instance attribute of the bootstrapper object) / the
@@ -24,6 +29,7 @@ from __future__ import annotations
 
 import asyncio
 import contextvars
+import errno
 import functools
 import warnings
 
@@ -75,7 +81,22 @@ class FakeSocket:
 
 
 class ObsLoop(vloop.VLoop):
-    """VLoop that reports the steps of asyncio tasks (their step / wake-up callbacks pass through call_soon)."""
+    """VLoop that reports the steps of asyncio tasks (their step / wake-up callbacks pass through call_soon) and
+    remembers in which task's step every task was created."""
+
+    def __init__(self, *a, **k):
+        super().__init__(*a, **k)
+        self.set_task_factory(self._task_factory_with_parent)
+
+    @staticmethod
+    def _task_factory_with_parent(loop, coro, **kw):
+        t = asyncio.Task(coro, loop=loop, **kw)
+        r = ACTIVE
+        if r is not None:
+            cur = asyncio.current_task(loop)
+            if cur is not None:
+                r.parent[t] = cur
+        return t
 
     def call_soon(self, callback, *args, context=None):
         rec = ACTIVE
@@ -120,6 +141,9 @@ class Recorder:
         self.sock_circuit = {}   # transport of an exit socket -> circuit id
         self.bsocks = {}         # transport of a bootstrap socket -> id
         self.njob = 0
+        self.parent = {}         # task -> the task in whose step it was created
+        self.xids = {}           # id(exit socket) -> ordinal (order of the first open attempt)
+        self.open_plan = {}      # (exit socket ordinal, 4 | 6) -> ("ok" | "fail", virtual seconds the attempt takes)
 
     # ---- log
     def log(self, e, a=0, ok=True, note="", o="ov", **extra):
@@ -128,6 +152,19 @@ class Recorder:
         if self.trigger_at is not None and len(self.events) >= self.trigger_at and self.phase == "loaded":
             self.trigger_at = None
             self.on_trigger()
+
+    # ---- in which task of T does this code run
+    def holder(self):
+        """id of the registered task of T that is running now, or from which the running task descends; 0: none"""
+        cur = asyncio.current_task()
+        for _ in range(64):
+            if cur is None:
+                return 0
+            info = self.owned.get(cur)
+            if info is not None:
+                return info[0]
+            cur = self.parent.get(cur)
+        return 0
 
     # ---- who owns a task manager
     def owner_of(self, tm):
@@ -366,6 +403,13 @@ def _install_socket_spy(loop, net):
 
     async def create_datagram_endpoint(protocol_factory, local_addr=None, **kw):
         fake = kw.pop("sock", None)
+        r0 = ACTIVE
+        if fake is None and r0 is not None:
+            proto0 = protocol_factory()
+            owner = getattr(getattr(proto0, "received_cb", None), "__self__", None)
+            if owner is not None and r0.owner_of(owner) == "sock":
+                return await open_for_exit_socket(r0, owner, proto0, local_addr, kw)
+            protocol_factory = lambda: proto0      # noqa: E731
         if fake is not None:
             # the real loop hands the transport over only after connection_made ran: two more iterations, during which
             # the caller can be cancelled (then no transport exists and the socket is closed)
@@ -390,20 +434,40 @@ def _install_socket_spy(loop, net):
                     r.log("BootClose", sid)
                 return o_bclose()
             tr.close = bclose
-            return tr, proto
-        owner = getattr(getattr(proto, "received_cb", None), "__self__", None)
-        if r is not None and owner is not None and r.owner_of(owner) == "sock":
-            sid = len(r.socks) + 1
-            r.socks[tr] = sid
-            r.sock_circuit[tr] = getattr(owner, "circuit_id", None)
-            r.log("SockOpen", sid, note="exit socket of circuit %s" % getattr(owner, "circuit_id", "?"))
-            o_close = tr.close
+        return tr, proto
 
-            def close():
-                if not tr.closed:
-                    r.log("SockClose", sid)
-                return o_close()
-            tr.close = close
+    async def open_for_exit_socket(r, owner, proto, local_addr, kw):
+        """the environment's answer to an exit socket that asks for a datagram endpoint: some time later a transport,
+        or OSError; a caller that is cancelled in between gets nothing (asyncio closes what it had half opened)"""
+        x = r.xids.setdefault(id(owner), len(r.xids) + 1)
+        fam = 6 if local_addr and ":" in local_addr[0] else 4
+        t = r.holder()
+        what = "IPv%d socket of exit socket %d (circuit %s)" % (fam, x, getattr(owner, "circuit_id", "?"))
+        verdict, takes = r.open_plan.get((x, fam), ("ok", 0))
+        r.log("SockTry", t, note="%s asked for in task %d" % (what, t))
+        if takes:
+            try:
+                await asyncio.sleep(takes)
+            except BaseException:
+                r.log("SockFail", t, note="%s: caller cancelled while the attempt was in flight" % what)
+                raise
+        if verdict != "ok":
+            r.log("SockFail", t, note="%s refused by the environment (OSError)" % what)
+            if fam == 6:
+                raise OSError(errno.EADDRNOTAVAIL, "simulated: cannot assign requested address (no IPv6 on this host)")
+            raise OSError(errno.EMFILE, "simulated: too many open files")
+        tr, proto = await o_create(lambda: proto, local_addr=local_addr, **kw)
+        sid = len(r.socks) + 1
+        r.socks[tr] = sid
+        r.sock_circuit[tr] = getattr(owner, "circuit_id", None)
+        o_close = tr.close
+
+        def close():
+            if not tr.closed:
+                r.log("SockClose", sid)
+            return o_close()
+        tr.close = close
+        r.log("SockOpen", sid, note="%s opened" % what, t=t)
         return tr, proto
     loop.create_datagram_endpoint = create_datagram_endpoint
 
